@@ -6,6 +6,7 @@
 -/
 import MptModel.Lemmas.Decode
 import MptModel.Lemmas.DecodeArrive
+import MptModel.Lemmas.DecodeSegs
 namespace Mpt.C03
 open Mpt.Cobs Mpt.Codec
 
@@ -71,6 +72,20 @@ theorem honest_stream (v : Variant) (a : Nat) (st : DecState) (store : List Byte
     (hS : store.drop st.curr ++ pieces.flatten = pre ++ 0 :: junk) (hnz : ∀ x ∈ pre, x ≠ 0)
     (h : arrive v a st store pieces = some o) (h1 : o.ret = .val 1) : dec v (pre ++ [0]) = some o.region :=
   arrive_honest' v a st store pieces pre junk o hf hc hS hnz h h1
+
+/-- Honesty over every segmentation in time and space (`arriveSegs`): the stream arrives in arbitrary
+    pieces, each appended to the last segment of the iovec array or put into a further segment (empty
+    segments included, any base alignments), the decoder is called on the whole array after every
+    arrival; from any state between two messages a delivered message is the reference decoding of the
+    frame at the input position. -/
+theorem honest_segments (v : Variant) (st : DecState) (segs : List Seg) (xs : List Arrival)
+    (pre junk : List Byte) (o : DecOut) (hf : Fresh st) (hc : st.curr ≤ (flat segs).length)
+    (hS : (flat segs).drop st.curr ++ arrBytes xs = pre ++ 0 :: junk) (hnz : ∀ x ∈ pre, x ≠ 0)
+    (h : arriveSegs v st segs xs = some o) (h1 : o.ret = .val 1) : dec v (pre ++ [0]) = some o.region :=
+  arriveSegs_honest v st segs xs pre junk o hf hc hS hnz h h1
+
+example : (arriveSegs .cobs {} [] [⟨true, 3, [3, 0x11]⟩, ⟨true, 0, []⟩, ⟨true, 9, [0x22, 2]⟩, ⟨false, 0, [0x33, 0]⟩]).map
+    (fun o => (o.ret, o.region)) = some (.val 1, [0x11, 0x22, 0, 0x33]) := by decide
 
 /-- malformed input is never turned into a message: when the reference decoder rejects the frame (zero
     inside a block for the plain framings, leading or doubled delimiter, …) the call does not deliver -/
